@@ -17,8 +17,16 @@ structure RHyp (E : Env U π) (rank : UNT U → Nat) (Good : π → Prop) : Prop
   /-- `adjust_priority_for_start` is monotone -/
   adj_mono : ∀ a b nt w, startW E nt = some w → Good a → Good b → E.ops.lt a b = false →
     E.ops.lt (E.ops.adjust a w) (E.ops.adjust b w) = false
+  good_adjust : ∀ a nt w, startW E nt = some w → Good a → Good (E.ops.adjust a w)
 
 theorem RHyp.nhyp (R : RHyp E rank Good) : NHyp E := ⟨R.ohyp.ghyp, R.disj, R.starts_nodup, Or.inl R.nofilter⟩
+
+/-- the keys of the start heap are priorities of the good set -/
+theorem start_good (R : RHyp E rank Good) {s : St U π} (hs : SInv E s) : ∀ e, e ∈ s.startHeap → Good e.1 := by
+  intro e he
+  obtain ⟨w, pr, hw, hpr, hk⟩ := hs.start_ok e he
+  rw [hk]
+  exact R.good_adjust pr _ w hw (hasPrio_good R.ohyp _ _ _ hpr)
 
 /-- every non-terminal is untouched or fully initialised -/
 def All (E : Env U π) (rank : UNT U → Nat) (s : St U π) : Prop := ∀ nt, Uninit s nt ∨ Full E rank s nt
@@ -104,15 +112,17 @@ theorem OG.pushNext (R : RHyp E rank Good) {fuel : Nat} {s s' : St U π} {emE : 
         · exact Or.inl h1
         · exact Or.inr (hsh2 ▸ h1)
       -- the new entry is not better than the bound
-      have hnew : p = none ∨ E.ops.lt (E.ops.adjust pr w) bound = false := by
+      have hnewG : p = none ∨ (Good bound ∧ E.ops.lt (E.ops.adjust pr w) bound = false) := by
         cases p with
         | none => exact Or.inl rfl
         | some k =>
           right
           obtain ⟨prk, hprk⟩ := (hpp k rfl).der h.base.sinv
           rw [hkb k w prk rfl hw hprk]
-          exact R.adj_mono pr prk nt w hw (hasPrio_good H _ _ _ hpr) (hasPrio_good H _ _ _ hprk)
-            (a4 q rfl k rfl prk pr hprk hpr)
+          exact ⟨R.good_adjust _ _ _ hw (hasPrio_good H _ _ _ hprk),
+            R.adj_mono pr prk nt w hw (hasPrio_good H _ _ _ hpr) (hasPrio_good H _ _ _ hprk)
+              (a4 q rfl k rfl prk pr hprk hpr)⟩
+      have hnew : p = none ∨ E.ops.lt (E.ops.adjust pr w) bound = false := hnewG.imp id (fun h => h.2)
       have hbase2 : Base E { s2 with startHeap := Heapq.push (ltS E.ops) s2.startHeap (E.ops.adjust pr w, q, nt) } :=
         ⟨g'.sinv, g'.ninv, by intro nt'; show Heapq.IsHeap _ (s2.heapOf nt'); rw [hcs.heapOf]; exact hbase1.hinv nt',
           by show s2.deleted = []; obtain ⟨c, rfl⟩ := hcs; exact hbase1.nodel⟩
@@ -126,14 +136,17 @@ theorem OG.pushNext (R : RHyp E rank Good) {fuel : Nat} {s s' : St U π} {emE : 
       refine ⟨⟨hbase2, g', hall1.same hsame2 hst2, ?_, h.sorted, ?_, h.em_key⟩, ?_, hkept2, ?_, ?_⟩
       · intro e he x hx
         rcases hmem e he with rfl | hm
-        · rcases hnew with hn | hn
+        · rcases hnewG with hn | ⟨hgb, hn⟩
           · -- first push for this start symbol: nothing was taken yet
             rw [hpn hn] at hx; cases hx
-          · exact H.weak.ntrans _ _ _ (hbound x hx) hn
+          · obtain ⟨w2, pr2, hw2, hpr2, he2⟩ := h.em_key x hx
+            exact H.weak.ntrans (by rw [he2]; exact R.good_adjust _ _ _ hw2 (hasPrio_good H _ _ _ hpr2)) hgb
+              (R.good_adjust _ _ _ hw (hasPrio_good H _ _ _ hpr)) (hbound x hx) hn
         · exact h.heap_ge e hm x hx
       · show Heapq.IsHeap _ (Heapq.push (ltS E.ops) s2.startHeap _)
-        apply Heapq.push_isHeap (ltS_weakOrder E.ops H.weak)
-        rw [hsh2]; exact h.sheap
+        apply Heapq.push_isHeap_on (ltS_weakOrderOn H) _ _ _ (R.good_adjust _ _ _ hw (hasPrio_good H _ _ _ hpr))
+        · rw [hsh2]; exact h.sheap
+        · rw [hsh2]; exact start_good R h.base.sinv
       · intro e he
         rcases hmem e he with rfl | hm
         · exact Or.inr ⟨rfl, hnew⟩
@@ -230,7 +243,7 @@ theorem OG.kwayLoop (R : RHyp E rank Good) {fuel : Nat} : ∀ (k : Nat) {s s' : 
     · rename_i e h' hpop
       obtain ⟨pa, q, nt⟩ := e
       obtain ⟨hm, hsub⟩ := mem_of_pop _ _ _ _ hpop
-      obtain ⟨hsh', hmin⟩ := Heapq.pop_isHeap (ltS_weakOrder E.ops H.weak) _ _ _ h.sheap hpop
+      obtain ⟨hsh', hmin⟩ := Heapq.pop_isHeap_on (ltS_weakOrderOn H) _ _ _ (start_good R h.base.sinv) h.sheap hpop
       obtain ⟨g0, hnt0, hpq⟩ := h.ginv.popStart R.disj hpop
       have h0 : OG E rank { s with startHeap := h' } ((pa, q, nt) :: emE) := by
         refine ⟨⟨g0.sinv, g0.ninv, h.base.hinv, h.base.nodel⟩, g0, ?_, ?_, ?_, hsh', ?_⟩
@@ -252,7 +265,7 @@ theorem OG.kwayLoop (R : RHyp E rank Good) {fuel : Nat} : ∀ (k : Nat) {s s' : 
           (by
             intro x hx
             rcases List.mem_cons.mp hx with rfl | hx
-            · exact H.weak.irrefl _
+            · exact H.weak.irrefl (start_good R h.base.sinv _ hm)
             · exact h.heap_ge _ hm x hx)
           (by
             intro k w pr hk hw hpr
